@@ -26,15 +26,15 @@ import (
 
 // Result is what a scenario reports about one execution.
 type Result struct {
-	Failure string            // "" = the oracle held
-	Key     string            // stable identifier of the failing case (known-findings matching)
-	Outcome string            // canonical observable outcome (distinct-outcome statistics)
-	Counts  map[string]int64  // additive scenario statistics (crash images, traces, …)
-	Flags   map[string]bool   // coverage flags, or-ed over executions
-	Sample  interface{}       // optional: something worth showing in the evidence
-	Evals      int64          // enumeration checks: inner cases evaluated by this call (default 1)
-	Nontrivial int64          // enumeration checks: how many of them were non-trivial
-	Notes   []string
+	Failure    string           // "" = the oracle held
+	Key        string           // stable identifier of the failing case (known-findings matching)
+	Outcome    string           // canonical observable outcome (distinct-outcome statistics)
+	Counts     map[string]int64 // additive scenario statistics (crash images, traces, …)
+	Flags      map[string]bool  // coverage flags, or-ed over executions
+	Sample     interface{}      // optional: something worth showing in the evidence
+	Evals      int64            // enumeration checks: inner cases evaluated by this call (default 1)
+	Nontrivial int64            // enumeration checks: how many of them were non-trivial
+	Notes      []string
 	// FreshConfirm: the failure can only be observed once per process (race
 	// detector reports are de-duplicated); it is confirmed by replaying the
 	// choices in a fresh worker process instead of in place.
@@ -82,8 +82,8 @@ type Stats struct {
 	Param        string           `json:"param,omitempty"`
 	Bound        int              `json:"bound"`
 	Executions   int64            `json:"executions"`
-	Nodes        int64            `json:"nodes"`       // distinct choice-tree nodes (schedule prefixes)
-	Steps        int64            `json:"steps"`       // scheduler steps executed
+	Nodes        int64            `json:"nodes"` // distinct choice-tree nodes (schedule prefixes)
+	Steps        int64            `json:"steps"` // scheduler steps executed
 	MaxPoints    int              `json:"max_choice_points"`
 	DefaultSteps int              `json:"default_steps"`
 	Outcomes     map[string]int64 `json:"-"`
@@ -147,6 +147,22 @@ type job struct {
 	MaxSteps int      `json:"max_steps"`
 	Deadline int64    `json:"deadline"` // unix seconds, 0 = none
 	MaxViol  int      `json:"max_viol"`
+	Known    []string `json:"known"` // keys of listed known findings: recorded once each, they do not end the exploration
+}
+
+// KnownKeys holds the keys of the known findings of the property being checked
+// (set by checkmain.New in the driver process).  A failing execution whose key
+// is listed is recorded once and the exploration goes on, so that a different
+// violation in the same scenario is still found.
+var KnownKeys = map[string]bool{}
+
+func unlisted(vs []Violation) bool {
+	for _, v := range vs {
+		if v.Key == "" || !KnownKeys[v.Key] {
+			return true
+		}
+	}
+	return false
 }
 
 type jobResult struct {
@@ -166,11 +182,21 @@ type jobResult struct {
 }
 
 type walker struct {
-	run      RunFunc
-	j        job
-	st       *Stats
-	cut      bool
-	seenViol map[string]bool
+	run       RunFunc
+	j         job
+	st        *Stats
+	cut       bool
+	seenViol  map[string]bool
+	nUnlisted int
+}
+
+func (w *walker) known(key string) bool {
+	for _, k := range w.j.Known {
+		if k == key {
+			return true
+		}
+	}
+	return false
 }
 
 func devs(choices []int) int {
@@ -280,7 +306,6 @@ func (w *walker) explore(prefix []int, sigs []uint64) {
 	}
 }
 
-
 // account books one execution; it returns false when nothing must be explored
 // below it (failure, divergence, cut).
 func (w *walker) account(s *verifmc.Sched, r *Result, prefix []int) bool {
@@ -330,12 +355,20 @@ func (w *walker) account(s *verifmc.Sched, r *Result, prefix []int) bool {
 			w.cut = true
 			return false
 		}
+		if v.Key != "" && w.known(v.Key) {
+			if !w.seenViol["known|"+v.Key] {
+				w.seenViol["known|"+v.Key] = true
+				st.Violations = append(st.Violations, *v)
+			}
+			return false // listed known finding: recorded once, the exploration goes on
+		}
 		k := v.Key + "|" + firstLine(v.Failure)
 		if !w.seenViol[k] {
 			w.seenViol[k] = true
 			st.Violations = append(st.Violations, *v)
+			w.nUnlisted++
 		}
-		if len(st.Violations) >= w.j.MaxViol {
+		if w.nUnlisted >= w.j.MaxViol {
 			w.cut = true
 		}
 		return false // do not branch below a failing execution
@@ -602,6 +635,10 @@ func Explore(cfg Config) *Stats {
 		deadline = t0.Add(cfg.Budget).Unix()
 	}
 	root := job{Scenario: cfg.Scenario, Param: cfg.Param, Bound: cfg.Bound, MaxSteps: maxSteps, Deadline: deadline, MaxViol: cfg.MaxViol}
+	for k := range KnownKeys {
+		root.Known = append(root.Known, k)
+	}
+	sort.Strings(root.Known)
 	total.Exhaustive = true
 	if cfg.InProc || cfg.Bound == 0 || os.Getenv("VERIF_INPROC") != "" {
 		res := runJob(root)
@@ -612,10 +649,10 @@ func Explore(cfg Config) *Stats {
 	} else {
 		// level 0 (the default execution, already run above as s0/r0) is accounted
 		// here; every level-1 subtree is a job for the workers
-		w := &walker{run: run, j: job{Scenario: cfg.Scenario, Param: cfg.Param, Bound: 0, MaxSteps: maxSteps, MaxViol: 3}, st: newStats(), seenViol: map[string]bool{}}
+		w := &walker{run: run, j: job{Scenario: cfg.Scenario, Param: cfg.Param, Bound: 0, MaxSteps: maxSteps, MaxViol: 3, Known: root.Known}, st: newStats(), seenViol: map[string]bool{}}
 		w.account(s0, r0, nil)
 		total.merge(w.st)
-		if len(w.st.Violations) == 0 && len(w.st.Errors) == 0 {
+		if !unlisted(w.st.Violations) && len(w.st.Errors) == 0 {
 			var jobs []job
 			for i, p := range s0.Trace {
 				for alt := 1; alt < p.N; alt++ {
@@ -637,7 +674,7 @@ func Explore(cfg Config) *Stats {
 			var mu sync.Mutex
 			err := parallel(len(jobs), func(wp *workerProc, i int) error {
 				mu.Lock()
-				stop := len(total.Violations) > 0 || len(total.Errors) > 0
+				stop := unlisted(total.Violations) || len(total.Errors) > 0
 				mu.Unlock()
 				if stop {
 					return nil
@@ -699,7 +736,7 @@ func Explore(cfg Config) *Stats {
 		kept = append(kept, v)
 	}
 	total.Violations = kept
-	if len(total.Violations) > 0 || len(total.Errors) > 0 {
+	if unlisted(total.Violations) || len(total.Errors) > 0 {
 		total.Exhaustive = false
 	}
 	total.NOutcomes = len(total.Outcomes)
